@@ -1,7 +1,7 @@
 from props_common import COMMON_TRUSTED
 
 CONFIG = {
-    "areas": ["fuzz"],
+    "areas": ["fuzz", "auth"],
     "lean": ["VProps.C18"],
     "sources": ["VProps/C18.lean", "VModel/Json.lean", "VModel/Auth.lean", "VModel/Event.lean"],
     "theorems": ["V.C18.version_table_total", "V.C18.version_table_keys", "V.C18.compact_no_panic", "V.C18.canonical_no_panic"],
